@@ -7,6 +7,7 @@ ENGINES = ["chain"]
 def run(tier, replay):
     return run_chain_check(PID, tier, replay,
                            mc_quick=["mc/MC_Chain_utxo_q"], mc_thorough=["mc/MC_Chain_utxo"],
-                           sim_cfg="mc/MC_Chain_simemit", n_quick=160, n_thorough=1600,
+                           sim_cfg="mc/MC_Chain_simemit", n_quick=120, n_thorough=1600,
                            focus="UnspentIsReplay / IndexConsistent / SpentIdxInv; replay compares get_unspent of every commitment ever minted (with creation height and position round trip), leaf count, enumeration count, after every delivery; twin roots at the end",
+                           extra_sims=[("mc/MC_Chain_simemit_respend", 80, 800)],
                            assumptions=["minted bodies: <=2 inputs from every commitment on any fork plus never-created ones, <=2 outputs incl. re-created commitments, value-balanced"])
